@@ -594,17 +594,23 @@ package aml
 //@   loop 1 (siblingIndex != InvalidIndex) invariant siblingIndex == InvalidIndex || live(tree, siblingIndex)
 //@   loop 1 invariant empty: obj.firstArgIndex == InvalidIndex ==> argCount == 0 && siblingIndex == InvalidIndex
 
-// parseFieldElements (C12, partial): the byte list of a Connection buffer is cut out of the table
+// parseFieldElements (C12 C11, partial): the default access type, lock rule and update rule come
+// from bits 0-3, 4 and 5-6 of the field flags; a named field unit records the running bit offset,
+// its width and the access attributes in force, and is placed after the previous unit. The byte list of a Connection buffer is cut out of the table
 // with the length the stream declares; that length must fit in what is left of the buffer's
 // package, or the tree would refer to bytes outside the table (parseByteList's precondition,
 // stated here because a partial contract only assumes its callees' preconditions; an empty
 // list refers to nothing).
 //@ func (p *Parser) parseFieldElements(curObj *Object) (res parseResult)
-//@   property C12
+//@   property C12 C11
 //@   partial
 //@   requires p != nil && wfR(rd(p))
 //@   modifies *
 //@   loop 1 (!p.r.EOF()) invariant wfR(rd(p))
+//@   loop 1 ghost flags0 = initialFlags
+//@   loop 1 ghost access0 = accessType
+//@   loop 1 invariant flags: lockType == (flags0 >> 4) & 0x1 && updateType == (flags0 >> 5) & 0x3 && access0 == flags0 & 0xf
+//@   at call appendAfter 1: assert element: arg(arg) == field && arg(nextTo) == appendAfter && field.opcode == pOpIntNamedField && typeis(field.value, *fieldElement) && unbox(field.value, *fieldElement).offset == nextFieldOffset && unbox(field.value, *fieldElement).width == pkgLen && unbox(field.value, *fieldElement).accessType == accessType && unbox(field.value, *fieldElement).accessAttrib == accessAttrib && unbox(field.value, *fieldElement).accessLength == accessLength && unbox(field.value, *fieldElement).lockType == lockType && unbox(field.value, *fieldElement).updateType == updateType && unbox(field.value, *fieldElement).connectionIndex == connectionIndex && unbox(field.value, *fieldElement).fieldIndex == curObj.index
 //@   at call parseByteList 1: assert window: arg(obj) == connArg && (arg(dataLen) == 0 || (p.r.offset <= p.r.pkgEnd && arg(dataLen) <= p.r.pkgEnd - p.r.offset))
 
 // parseSimpleArg (C11 C12, full contract): a data argument becomes a fresh, detached object
